@@ -284,6 +284,14 @@ def parse_functions(src, want=None):
             fns.setdefault(f.name, f)
             i = j + 1
             continue
+        ms = re.match(r"^(?:const|static) (.*): (.*?) = (const .*);$", line)
+        if ms and not line.startswith(" "):
+            # single-line item `const NAME: T = const V;` -> a one-block body returning V
+            f = LazyFn(ms.group(1).strip(), [], ms.group(2).strip(), ["    bb0: {", f"        _0 = {ms.group(3)};", "        return;", "    }"])
+            f.is_const = True
+            fns.setdefault(f.name, f)
+            i += 1
+            continue
         if line.startswith("fn ") and line.rstrip().endswith("{"):
             j = i + 1
             while j < n and lines[j] != "}":
